@@ -216,11 +216,8 @@ def install(interp):
         if sym.is_intlike(initializer):
             if sym.truth(initializer < 0):
                 interp.throw('ValueError', 'bitarray length must be >= 0')
-            # bitarray(n): n bits, content unspecified
-            if isinstance(initializer, int) and not sym.have_ctx():
-                return BA(initializer, lambda i: False)
-            f = sym.ctx().fresh_fun('uninit')
-            return BA(initializer, lambda i: sym.mk_bool(f(sym._int_t(i))))
+            # bitarray(n): n zero bits (documented since bitarray 3: "initialized to zeros")
+            return BA(initializer, lambda i: False)
         if isinstance(initializer, str):
             if isinstance(initializer, OpaqueStr):
                 raise Unsupported("bitarray from opaque string")
@@ -248,7 +245,8 @@ def install(interp):
                 bits.append(bool(x))
             return BA.concrete(bits)
         if isinstance(initializer, (bytes, bytearray)):
-            interp.throw('TypeError', "cannot extend bitarray with 'bytes', use .pack() or .frombytes() instead")
+            from .extern import bytes_to_ba
+            return bytes_to_ba(initializer)
         interp.throw('TypeError', 'cannot create bitarray from this type')
 
     ba_type = _AbstractType('bitarray.bitarray', lambda it, x: isinstance(x, BA))
